@@ -91,3 +91,18 @@ Proof. induction l as [|a l IH]; cbn [lenN length]; [reflexivity|]. rewrite IH. 
 
 Lemma N2Z_inj_lxor a b : Z.of_N (N.lxor a b) = Z.lxor (Z.of_N a) (Z.of_N b).
 Proof. destruct a, b; reflexivity. Qed.
+
+Lemma takeN_firstn {A} (l : list A) : forall n, takeN n l = firstn (N.to_nat n) l.
+Proof.
+  induction l as [|x t IH]; intros n; cbn [takeN].
+  - now rewrite firstn_nil.
+  - destruct (N.eqb_spec n 0) as [->|Hn]; [reflexivity|].
+    replace (N.to_nat n) with (S (N.to_nat (N.pred n))) by lia. cbn [firstn]. now rewrite IH.
+Qed.
+Lemma dropN_skipn {A} (l : list A) : forall n, dropN n l = skipn (N.to_nat n) l.
+Proof.
+  induction l as [|x t IH]; intros n; cbn [dropN].
+  - now rewrite skipn_nil.
+  - destruct (N.eqb_spec n 0) as [->|Hn]; [reflexivity|].
+    replace (N.to_nat n) with (S (N.to_nat (N.pred n))) by lia. cbn [skipn]. now rewrite IH.
+Qed.
